@@ -236,8 +236,8 @@ FP_ONLY = {"float": ["3.4028234663852886e+38", "-3.4028234663852886e+38", "1.175
                       "3.4028234663852886e+38", "1.17549435e-38"]}
 
 
-def c18_fp_schema():
-    """float and double types with explicit special and boundary lexemes: every
+def c18_fp_schema(prim):
+    """(one schema per primitive type: c18ff float, c18fd double)  float and double types with explicit special and boundary lexemes: every
     lexeme occurs as minValue, as maxValue, as nullValue and as a constant, for
     both primitive types; public, inline in a composite, through refs and as
     message fields.  Only XML Schema float lexemes (no hex, no signed NaN)."""
@@ -249,7 +249,7 @@ def c18_fp_schema():
         fid[0] += 1
         return fid[0]
 
-    for p in ("float", "double"):
+    for p in (prim,):
         L = FP_LEXEMES + FP_ONLY[p]
         n = len(L)
         tnames, knames = [], []
@@ -275,7 +275,7 @@ def c18_fp_schema():
         for ci in range(0, n, 11):
             msgs.append(G("%s_consts%d" % (p[0], ci // 11), 100 + len(msgs), fields=[F("c_" + k, nid(), k) for k in knames[ci:ci + 11]],
                           groups=[G("g", 1, fields=[F("gk", 1, knames[0]), F("gv", 2, tnames[0])])] if ci == 0 else []))
-    return {"package": "c18f", "id": 904, "version": 1, "byteOrder": "littleEndian", "types": types, "messages": msgs}
+    return {"package": "c18f" + prim[0], "id": 904, "version": 1, "byteOrder": "littleEndian", "types": types, "messages": msgs}
 
 
 # ------------------------------------------------------------------- C++ ---
